@@ -1230,3 +1230,23 @@ func (c *FnCtx) constInt(t string) (int64, bool) {
 	}
 	return 0, false
 }
+
+// evalTarget evaluates an assigns target.  A target of the form x.(T) denotes the payload's
+// storage only when x holds a T: otherwise the excepted region is empty (length 0).
+func (sc *SpecScope) evalTarget(ex ast.Expr) Val {
+	v := sc.eval(ex)
+	if ta, ok := ast.Unparen(ex).(*ast.TypeAssertExpr); ok && v.K == KSlice {
+		g := sc.eval(&ast.CallExpr{Fun: ast.NewIdent("is"), Args: []ast.Expr{ta.X, ta.Type}})
+		if g.K == KBool {
+			// a value of dynamic type T carries a well-formed slice header
+			for _, f := range sc.c.typeFacts(v) {
+				sc.c.fact(sImp(g.S, f))
+			}
+			r := v
+			r.F = append([]Val(nil), v.F...)
+			r.F[2] = vInt(sIte(g.S, v.ln(), "0"))
+			return r
+		}
+	}
+	return v
+}
